@@ -14,6 +14,7 @@ Inductive invariant proof over the SpectralInformation API:
  Rm memo          : every memoisation construct in the functions behind this property is keyed by everything it reads.
  Rp presence      : optional numeric fields are tested with `is None` / membership, never by truthiness (0 is a value).
  R7 NLI sign      : the NLI spreading over channels uses sign-preserving operations only (shared with C02-R5).
+ R8 named views   : every <x>_dbm getter returns watt2dbm(self.<x>); carriers fills each Channel field from the same-named attribute.
 """
 import ast
 
@@ -395,6 +396,47 @@ def r7_nli_sign(ctx):
     r5_nli_interp(proxy(ctx, 'R7', needs=True))
 
 
+def r8_named_views(ctx):
+    """R8: the named read-outs report the power they are named after: every `<x>_dbm` getter of SpectralInformation returns
+    watt2dbm(self.<x>), and `carriers` fills each field of the Channel record from the attribute of the same name (signal, ase, nli
+    in the record's own order)"""
+    repo = ctx.repo
+    owner = si_class(repo)
+    n = 0
+    for name, g in sorted(owner.getters.items()):
+        if not name.endswith('_dbm'):
+            continue
+        stem = name[:-4]
+        rets = [x for x in walk_no_nested(g.node) if isinstance(x, ast.Return)]
+        ok = len(rets) == 1 and ast.unparse(rets[0].value) == f'watt2dbm(self.{stem})'
+        n += 1
+        ctx.check('R8.named-views', f'{g.loc()} {g.qual}', ok, f'{g.qual}|dbm', f'{name} does not return watt2dbm(self.{stem})',
+                  ast.unparse(rets[0].value) if rets else '')
+    ch = repo.module('gnpy.core.info').classes.get('Channel')
+    fields = None
+    if ch is not None:
+        for b in ch.node.bases:
+            if isinstance(b, ast.Call) and getattr(b.func, 'id', '') == 'namedtuple' and len(b.args) == 2:
+                parts = []
+                for c_ in ast.walk(b.args[1]):
+                    if isinstance(c_, ast.Constant) and isinstance(c_.value, str):
+                        parts.append(c_.value)
+                fields = ' '.join(parts).split()
+    car = owner.getters.get('carriers')
+    ok = False
+    det = ''
+    if fields and car is not None:
+        zips = [c for c in ast.walk(car.node) if isinstance(c, ast.Call) and getattr(c.func, 'id', '') == 'zip']
+        if len(zips) == 1:
+            got = [ast.unparse(a) for a in zips[0].args]
+            det = str(got)
+            ok = got == [f'self.{x}' for x in fields] and any(isinstance(x, ast.Call) and getattr(x.func, 'id', '') == 'Channel'
+                                                              for x in ast.walk(car.node))
+    ctx.check('R8.named-views', f'{car.loc() if car else ""} carriers', ok, f'{owner.qual}.carriers|fields',
+              f'carriers does not fill the Channel record {fields} from the attributes of the same names, in that order', det)
+    ctx.need('R8.named-views', 6)
+
+
 from ..memo import rule_for as _memo_rule
 
 RULES_MEMO = ('Rm.memo', _memo_rule('C01', 'a stale share or GSNR would be reported after the spectrum was updated'))
@@ -404,7 +446,7 @@ from ..presence import rule_for as _presence_rule
 
 RULES_PRESENCE = ('Rp.presence', _presence_rule('C01', 'a legal zero would be read as missing'))
 
-RULES = [('R6.published-figures', r6_published), ('R5.split-merge', r5_split_merge), ('R1.ownership', r1_ownership), ('R2.base', r2_base), ('R3.step', r3_step), ('R4.reported', r4_reported), RULES_MEMO, RULES_PRESENCE, ('R7.nli-sign', r7_nli_sign)]
+RULES = [('R6.published-figures', r6_published), ('R5.split-merge', r5_split_merge), ('R1.ownership', r1_ownership), ('R2.base', r2_base), ('R3.step', r3_step), ('R4.reported', r4_reported), RULES_MEMO, RULES_PRESENCE, ('R7.nli-sign', r7_nli_sign), ('R8.named-views', r8_named_views)]
 
 
 def proof_keys(ctx):
